@@ -9,8 +9,8 @@ def sh(cmd, **kw):
     return subprocess.run(cmd, shell=isinstance(cmd, str), capture_output=True, text=True, **kw)
 
 def evaluate(pid, seeds=("1",), rnd=1):
-    src = ("/tmp/seed/%s/out" if rnd == 1 else "/tmp/seed2/%s/out") % pid
-    dst = ("/verif/seeded/%s" if rnd == 1 else "/verif/seeded/%s/round2") % pid
+    src = ("/tmp/seed/%s/out" if rnd == 1 else "/tmp/seed" + str(rnd) + "/%s/out") % pid
+    dst = ("/verif/seeded/%s" if rnd == 1 else "/verif/seeded/%s/round" + str(rnd)) % pid
     if not os.path.exists(os.path.join(src, "patch.diff")):
         print(pid, "no patch.diff"); return None
     if os.path.isdir(dst):
